@@ -63,10 +63,18 @@ def Ctx.buildName (c : Ctx) (name pfx : String) (global checkExistence : Bool) :
     | none => if checkExistence then none else some (prefixed "" name)
   else some name
 
+/-- `findVariable`: first under the name as is (only if `global` is false), then under the
+    prefixed name (globals of an imported file) -/
 def Ctx.findVar (c : Ctx) (name pfx : String) (global : Bool) : Option Var :=
   match c.buildName name pfx global true with
-  | some k => assocGet c.vars k
   | none => none
+  | some k =>
+    match assocGet c.vars k with
+    | some v => some v
+    | none =>
+      match c.buildName name pfx true true with
+      | some k' => assocGet c.vars k'
+      | none => none
 
 def Ctx.findFunc (c : Ctx) (name pfx : String) : Option FuncInfo :=
   match c.buildName name pfx true true with
